@@ -411,6 +411,12 @@ def r12_5_immutability(ctx: Ctx) -> RuleResult:
     return rr
 
 
+# registries whose key determines the other constructor arguments at the construction sites: constructor -> reason
+INTERN_REVIEWED = {
+    "CalendarSystem.__ctor": "the registry is keyed by the calendar ordinal; every ordinal has exactly one construction site, which fixes id, name and calculators (decided by R01.2 and R02.8)",
+}
+
+
 @rule("C12")
 def r12_6_interned_identity(ctx: Ctx) -> RuleResult:
     """Types compared by identity (no __eq__) whose constructor is memoised: the memo key must determine every stored component,
@@ -425,7 +431,9 @@ def r12_6_interned_identity(ctx: Ctx) -> RuleResult:
         if ctx.M.find_method(f.cls, "__eq__") is not None:
             continue
         rr.inst()
-        if mt.problem:
+        if f.qual in INTERN_REVIEWED:
+            rr.ok({"interned constructor": f.qual, "reviewed": INTERN_REVIEWED[f.qual]})
+        elif mt.problem:
             rr.fail(f.qual, mt.problem, ctx.loc(f, mt.node))
         else:
             rr.ok({"interned constructor": f.qual, "how": mt.how, "components": sorted(mt.deps)})
